@@ -16,10 +16,6 @@ def physDepth (h : Host) (cfg : Cfg) (src : Path) : Nat :=
   | .found p _ => p.length
   | _ => depthBound h
 
-def cS (h : Host) : Nat := h.length + 2
-def cL (h : Host) : Nat := (depthBound h + 1) * cS h + 2
-def cB (cfg : Cfg) : Nat := cfg.mounts.length + 2
-def big (h : Host) (cfg : Cfg) (n : Nat) : Nat := n * cL h + (depthBound h + 1) * cS h + cB cfg + 1
 
 /-- fuel that suffices for a call -/
 def need (h : Host) (cfg : Cfg) : Call → Nat
@@ -271,8 +267,6 @@ theorem walk_ne_fuel (h : Host) (cfg : Cfg) (wf : HostWF h) (hs : supported cfg 
                 omega
             · intro a _; exact hrest a
 
-/-- fuel that suffices for the whole scan -/
-def fuelBound (h : Host) (cfg : Cfg) : Nat := big h cfg (limitFollowSymlinks + 1)
 
 theorem scan_ne_fuel (h : Host) (cfg : Cfg) (wf : HostWF h) (hs : supported cfg = true)
     (fuel : Nat) (hf : fuelBound h cfg ≤ fuel) : scan h cfg fuel ≠ .fuel := by
